@@ -1,9 +1,15 @@
 """C20 -- demand, resilience and pump-cost metrics equal their documented formulas.
 
-Tie (T): `Gen/Tables.lean` is regenerated on every run from wntr/metrics/economic.py: the default lookup
+Tie (T1): `Gen/Tables.lean` is regenerated on every run from wntr/metrics/economic.py: the default lookup
 tables are obtained by partially evaluating the `if <table> is None:` blocks of the CURRENT source (ast), the
 documented tables by parsing the RST tables of the same functions' docstrings (what Sphinx publishes).
 Props/C20.lean proves by `decide` that the two agree.
+Tie (T2): `Gen/MetricsFormulas.lean` is regenerated on every run by harness/props/c20_translate.py: an abstract
+interpreter over the python ast of expected_demand, water_service_availability, todini_index,
+modified_resilience_index, tank_capacity (+ Tank.get_volume), population, population_impacted, pump_power /
+pump_energy / pump_cost, annual_network_cost (incl. the maximum-pump-power expression) and annual_ghg_emissions
+extracts the arithmetic of each function as an `MExpr` term (pandas broadcasting flattened to one time / element).
+Props/C20.lean proves for ALL inputs that every extracted term evaluates to the documented formula (`*_code_eq_doc`).
 Tie (C): Model/Pattern.lean + Model/Metrics.lean (exact rationals, run through Drivers/MetricsDriver.lean) against
 the real pandas/numpy implementation on the same generated inputs, plus expected_demand against the demand a
 real WNTRSimulator run delivers in demand-driven mode.
@@ -430,7 +436,12 @@ class C20(Check):
     prop_modules = ["WntrModel.Props.C20"]
     manifest = dict(
         category="proof",
-        text="Lean theorems over transliterations of Pattern.at / TimeSeries.at / Demands.at, expected_demand, average_expected_demand "
+        text="The arithmetic of every metric function (expected_demand, water_service_availability, todini_index, modified_resilience_index, "
+        "tank_capacity + Tank.get_volume, population, population_impacted, pump_power/energy/cost, annual_network_cost incl. the maximum-pump-power "
+        "expression, annual_ghg_emissions) is re-extracted from the python source on every run (ast -> MExpr terms, Gen/MetricsFormulas.lean) and "
+        "proved equal, for all inputs, to the documented formula quoted next to its Lean definition (`*_code_eq_doc`; zero denominators and the "
+        "NotImplemented branches as the code has them; the documented efficiency of the maximum pump power kept with its counterexample). "
+        "Lean theorems over transliterations of Pattern.at / TimeSeries.at / Demands.at, expected_demand, average_expected_demand "
         "(with _gcd/_lcm/_lcml) and the documented metric formulas in exact rationals: patterns are periodic; the averaging period is a positive common "
         "multiple of 24 h and every pattern length; the mean over that window does not depend on its start and equals sum(base x mean multiplier x "
         "demand multiplier); expected_demand is the sum of base x pattern x multiplier and is the expression WNTRSimulator uses; the lookup index minimises "
@@ -438,10 +449,13 @@ class C20(Check):
         "the true maximum for a linear curve. Every metric function is run against the Lean driver on random networks and random results tables, and "
         "expected_demand against a real demand-driven WNTRSimulator run.",
         design_ref="DESIGN.md §5 C20",
-        note="the formulas of todini/MRI/tank capacity/WSA/population/pump power-energy-cost/annual cost are DEFINITIONS in the model (the oracle), "
-        "tied to the pandas code by the differential run only; float rounding, pandas alignment and scipy curve_fit are exercised, not modelled; "
-        "the general-exponent maximum-pump-power formula is evaluated in Lean Float; interpolated patterns are covered by periodicity only",
-        technique="Lean 4 proof over hand model + translator-regenerated tables, differential run against the Lean driver, simulator cross-check",
+        note="the formula translator flattens pandas to one time / one element and trusts its own reading of the pandas / WaterNetworkModel API "
+        "(`.loc[:, names]`, `.sum(axis=1)`, `wn.pumps()` ...; anything outside its subset is reported as a broken tie); label alignment, float rounding "
+        "and scipy curve_fit are exercised by the differential run, not modelled; exp / log / ** and the curve interpolations are uninterpreted "
+        "symbols in the theorems (numpy.interp / _interp_extrapolate, Pattern.at, Demands.at, average_expected_demand and _gcd/_lcm are hand "
+        "transliterations tied by the differential run); the naming of inputs (Row / Env builders in Props/C20.lean) is hand-written glue; "
+        "the general-exponent maximum-pump-power value is evaluated in Lean Float; interpolated patterns are covered by periodicity only",
+        technique="Lean 4 proof over translator-regenerated formula terms and tables + hand model, differential run against the Lean driver, simulator cross-check",
     )
     rule = (
         "obligations: theorems of Props/C20.lean. correspondence cases: one per (network, metric call, argument variant) and per "
@@ -450,6 +464,8 @@ class C20(Check):
     )
     trusted_base = [
         "translator harness/props/c20.py (partial evaluation of the `if <table> is None` blocks and RST table parsing of economic.py)",
+        "formula translator harness/props/c20_translate.py (abstract interpretation of the metric functions' ast; its model of the pandas / wntr API)",
+        "input naming glue: the Row / Env builders beside each `*_code_eq_doc` theorem in Props/C20.lean",
         "hand transliteration Model/Pattern.lean, Model/Metrics.lean, tied to the code by the differential run on every check",
         "IEEE-754 rounding / pandas alignment are not modelled: implementation values are compared to exact rationals at 1e-9 relative",
     ]
